@@ -344,22 +344,35 @@ func fabioBinary() (string, error) {
 	return serveBin, serveBinErr
 }
 
-// freePorts reserves n distinct loopback ports (all listeners are held until every port is known).
+// freePorts picks n distinct free loopback ports for the child's listeners. They come from a block of the
+// non-ephemeral range that belongs to this process (chosen by its pid): ports the kernel hands out to the many
+// other harnesses of a busy machine (ephemeral range) cannot collide with them, and another shard of this stream
+// has another block. A port that is busy all the same is skipped; the child's own check (bind) and the
+// foreign-listener check in runServe remain.
+var portSeq int64
+
 func freePorts(n int) ([]int, error) {
-	var ls []net.Listener
-	defer func() {
-		for _, l := range ls {
-			l.Close()
-		}
-	}()
+	const lo, blocks, size = 10000, 300, 64
+	base := lo + (os.Getpid()%blocks)*size
 	var ps []int
-	for i := 0; i < n; i++ {
-		l, err := listenLoopback()
-		if err != nil {
-			return nil, err
+	for tries := 0; len(ps) < n && tries < 4*size; tries++ {
+		p := base + int(atomic.AddInt64(&portSeq, 1))%size
+		dup := false
+		for _, q := range ps {
+			dup = dup || q == p
 		}
-		ls = append(ls, l)
-		ps = append(ps, l.Addr().(*net.TCPAddr).Port)
+		if dup {
+			continue
+		}
+		l, err := net.Listen("tcp", fmt.Sprintf("127.0.0.1:%d", p))
+		if err != nil {
+			continue
+		}
+		l.Close()
+		ps = append(ps, p)
+	}
+	if len(ps) < n {
+		return nil, fmt.Errorf("no free ports in the block at %d", base)
 	}
 	return ps, nil
 }
@@ -482,71 +495,92 @@ func runServe(raw json.RawMessage) (interface{}, error) {
 		}
 		denied = append(denied, d)
 	}
-	// start the child; a reserved port may be taken by another process of this busy machine between the
-	// reservation and fabio's bind: try again with other ports
-	var addrs []string
-	var cmd *exec.Cmd
-	var exited chan struct{}
-	var logb *bytes.Buffer
-	for attempt := 0; ; attempt++ {
-		addrs = nil
-		var listen []string
-		ports, err := freePorts(len(c.Listeners) + 1)
-		if err != nil {
-			return nil, err
+	// a port of the child may be taken by another process of this busy machine between the choice and fabio's
+	// bind; the whole case is then run again with other ports
+	var lastErr error
+	for attempt := 0; attempt < 5; attempt++ {
+		res, retry, err := serveAttempt(&c, env, bin, routes.String(), denied)
+		if !retry {
+			return res, err
 		}
-		for i, l := range c.Listeners {
-			a := fmt.Sprintf("127.0.0.1:%d", ports[i])
-			addrs = append(addrs, a)
-			if l.TLS {
-				listen = append(listen, a+";proto=grpcs;cs=lst")
-			} else {
-				listen = append(listen, a+";proto=grpc")
-			}
-		}
-		uiPort := ports[len(c.Listeners)]
-		args := []string{"-insecure", "-registry.backend", "static", "-registry.static.routes", routes.String(),
-			"-proxy.addr", strings.Join(listen, ","), "-ui.addr", fmt.Sprintf("127.0.0.1:%d", uiPort),
-			"-proxy.cs", "cs=lst;type=file;cert=" + env.certFile + ";key=" + env.keyFile,
-			"-proxy.grpcshutdowntimeout", "100ms", "-log.level", "WARN"}
-		if c.Rx > 0 {
-			args = append(args, "-proxy.grpcmaxrxmsgsize", fmt.Sprint(c.Rx))
-		}
-		if c.Tx > 0 {
-			args = append(args, "-proxy.grpcmaxtxmsgsize", fmt.Sprint(c.Tx))
-		}
-		cmd = exec.Command(bin, args...)
-		cmd.Env = append(os.Environ(), "SSL_CERT_FILE="+env.caFile, "SSL_CERT_DIR="+filepath.Join(env.dir, "no-such-dir"))
-		// the child must not outlive the harness process (shard timeout, per-case watchdog)
-		cmd.SysProcAttr = &syscall.SysProcAttr{Pdeathsig: syscall.SIGKILL}
-		logb = &bytes.Buffer{}
-		cmd.Stdout, cmd.Stderr = logb, logb
-		if err := cmd.Start(); err != nil {
-			return nil, err
-		}
-		exited = make(chan struct{})
-		go func(cmd *exec.Cmd, ch chan struct{}) { cmd.Wait(); close(ch) }(cmd, exited)
-		up := true
-		for i, a := range addrs {
-			if !waitAccept(a, c.Listeners[i].TLS, 30*time.Second, exited) {
-				up = false
-				break
-			}
-		}
-		if up {
-			break
-		}
-		cmd.Process.Kill()
-		<-exited
-		if attempt < 4 && strings.Contains(logb.String(), "address already in use") {
-			continue
-		}
-		return nil, fmt.Errorf("fabio did not come up: %s", tailStr(logb.String(), 600))
+		lastErr = err
 	}
+	return nil, fmt.Errorf("the child's ports were taken five times in a row: %v", lastErr)
+}
+
+// syncBuf collects the child's output; it is read while the child still writes.
+type syncBuf struct {
+	mu sync.Mutex
+	b  bytes.Buffer
+}
+
+func (s *syncBuf) Write(p []byte) (int, error) {
+	s.mu.Lock()
+	defer s.mu.Unlock()
+	return s.b.Write(p)
+}
+
+func (s *syncBuf) String() string {
+	s.mu.Lock()
+	defer s.mu.Unlock()
+	return s.b.String()
+}
+
+const bindFailure = "address already in use"
+
+// serveAttempt starts the child with fresh ports, makes the calls and stops the child. retry: a port was taken by
+// somebody else (the child said so, at start-up or later), the observations — possibly made against a foreign
+// listener — are void.
+func serveAttempt(c *ServeCase, env *serveEnv, bin, routes string, denied []bool) (res interface{}, retry bool, err error) {
+	var addrs []string
+	var listen []string
+	ports, err := freePorts(len(c.Listeners) + 1)
+	if err != nil {
+		return nil, false, err
+	}
+	for i, l := range c.Listeners {
+		a := fmt.Sprintf("127.0.0.1:%d", ports[i])
+		addrs = append(addrs, a)
+		if l.TLS {
+			listen = append(listen, a+";proto=grpcs;cs=lst")
+		} else {
+			listen = append(listen, a+";proto=grpc")
+		}
+	}
+	uiPort := ports[len(c.Listeners)]
+	args := []string{"-insecure", "-registry.backend", "static", "-registry.static.routes", routes,
+		"-proxy.addr", strings.Join(listen, ","), "-ui.addr", fmt.Sprintf("127.0.0.1:%d", uiPort),
+		"-proxy.cs", "cs=lst;type=file;cert=" + env.certFile + ";key=" + env.keyFile,
+		"-proxy.grpcshutdowntimeout", "100ms", "-log.level", "WARN"}
+	if c.Rx > 0 {
+		args = append(args, "-proxy.grpcmaxrxmsgsize", fmt.Sprint(c.Rx))
+	}
+	if c.Tx > 0 {
+		args = append(args, "-proxy.grpcmaxtxmsgsize", fmt.Sprint(c.Tx))
+	}
+	cmd := exec.Command(bin, args...)
+	cmd.Env = append(os.Environ(), "SSL_CERT_FILE="+env.caFile, "SSL_CERT_DIR="+filepath.Join(env.dir, "no-such-dir"))
+	// the child must not outlive the harness process (shard timeout, per-case watchdog)
+	cmd.SysProcAttr = &syscall.SysProcAttr{Pdeathsig: syscall.SIGKILL}
+	logb := &syncBuf{}
+	cmd.Stdout, cmd.Stderr = logb, logb
+	if err := cmd.Start(); err != nil {
+		return nil, false, err
+	}
+	exited := make(chan struct{})
+	go func() { cmd.Wait(); close(exited) }()
 	defer func() {
 		cmd.Process.Kill()
 		<-exited
 	}()
+	for i, a := range addrs {
+		if !waitAccept(a, c.Listeners[i].TLS, 30*time.Second, exited) {
+			cmd.Process.Kill()
+			<-exited
+			e := fmt.Errorf("fabio did not come up: %s", tailStr(logb.String(), 600))
+			return nil, strings.Contains(logb.String(), bindFailure), e
+		}
+	}
 	conns := make([]*grpc.ClientConn, len(addrs))
 	defer func() {
 		for _, cc := range conns {
@@ -572,24 +606,34 @@ func runServe(raw json.RawMessage) (interface{}, error) {
 	for i := range c.Calls {
 		call := &c.Calls[i]
 		if call.L < 0 || call.L >= len(addrs) || call.R < 0 || call.R > 99 || len(call.Req) > 16 || len(call.Rep) > 16 || call.Code < 0 || call.Code > 16 {
-			return nil, fmt.Errorf("bad call")
+			return nil, false, fmt.Errorf("bad call")
 		}
 		cc, err := clientFor(call.L)
 		if err != nil {
-			return nil, err
+			return nil, false, err
 		}
-		o, err := env.call(cc, serveMethod(&c, call.R), call, fmt.Sprintf("%d-%d", atomic.AddInt64(&serveSeq, 1), i))
+		o, err := env.call(cc, serveMethod(c, call.R), call, fmt.Sprintf("%d-%d", atomic.AddInt64(&serveSeq, 1), i))
 		if err != nil {
-			return nil, err
+			return nil, false, err
 		}
 		out = append(out, o)
 	}
+	// The listeners answered - but were they the child's? A child that cannot bind a port somebody else took in
+	// the meantime says so and exits, though not at once (it runs its shutdown handlers first); until then the
+	// calls reach the other process's listener.
+	gone := false
 	select {
 	case <-exited:
-		return nil, fmt.Errorf("fabio exited during the case: %s", tailStr(logb.String(), 600))
-	default:
+		gone = true
+	case <-time.After(100 * time.Millisecond):
 	}
-	return map[string]interface{}{"obs": out, "backends": env.descr, "dial_host": "127.0.0.1", "denied": denied}, nil
+	if strings.Contains(logb.String(), bindFailure) {
+		return nil, true, fmt.Errorf("a port of the child was taken: %s", tailStr(logb.String(), 300))
+	}
+	if gone {
+		return nil, false, fmt.Errorf("fabio exited during the case: %s", tailStr(logb.String(), 600))
+	}
+	return map[string]interface{}{"obs": out, "backends": env.descr, "dial_host": "127.0.0.1", "denied": denied}, false, nil
 }
 
 // serveDenied parses one route command with the repo's parser and asks the resulting target whether its access
